@@ -9,7 +9,7 @@ ROOT=$(cd "$(dirname "$0")/.." && pwd)
 REPO=${VERIF_REPO:-/repo}
 if ! git -C "$REPO" diff --quiet; then echo "refusing: $REPO has uncommitted changes"; exit 2; fi
 if ! git -C "$REPO" apply $REV "$PATCH"; then echo "patch does not apply: $PATCH"; exit 2; fi
-trap 'git -C "$REPO" checkout -- . ' EXIT INT TERM
+trap 'git -C "$REPO" checkout -- . ; (cd "$ROOT/harness" && CARGO_NET_OFFLINE=true cargo build --release --offline >/dev/null 2>&1)' EXIT INT TERM
 for ID in "$@"; do
   OUT=$("$ROOT/bin/check" "$ID" quick 2>&1); RC=$?
   echo "== $(basename "$PATCH") $REV $ID exit=$RC"
